@@ -65,10 +65,12 @@ static edn_value_t** edn_collection_builder_finish(edn_collection_builder_t* bui
     if (builder->elements == builder->inline_storage && builder->count > 0) {
         edn_value_t** permanent =
             edn_arena_alloc(builder->arena, builder->count * sizeof(edn_value_t*));
-        if (permanent != NULL) {
-            memcpy(permanent, builder->inline_storage, builder->count * sizeof(edn_value_t*));
-            return permanent;
+        if (permanent == NULL) {
+            /* The inline storage lives in the caller's stack frame: it must not escape */
+            return NULL;
         }
+        memcpy(permanent, builder->inline_storage, builder->count * sizeof(edn_value_t*));
+        return permanent;
     }
 
     return builder->elements;
@@ -124,6 +126,11 @@ edn_value_t* edn_read_list(edn_parser_t* parser) {
 
     size_t count;
     edn_value_t** elements = edn_collection_builder_finish(&builder, &count);
+    if (elements == NULL && count > 0) {
+        parser->error = EDN_ERROR_OUT_OF_MEMORY;
+        parser->error_message = "Out of memory while building list";
+        return NULL;
+    }
 
     edn_value_t* value = edn_arena_alloc_value(parser->arena);
     if (value == NULL) {
@@ -191,6 +198,11 @@ edn_value_t* edn_read_vector(edn_parser_t* parser) {
 
     size_t count;
     edn_value_t** elements = edn_collection_builder_finish(&builder, &count);
+    if (elements == NULL && count > 0) {
+        parser->error = EDN_ERROR_OUT_OF_MEMORY;
+        parser->error_message = "Out of memory while building vector";
+        return NULL;
+    }
 
     edn_value_t* value = edn_arena_alloc_value(parser->arena);
     if (value == NULL) {
@@ -258,6 +270,11 @@ edn_value_t* edn_read_set(edn_parser_t* parser) {
 
     size_t count;
     edn_value_t** elements = edn_collection_builder_finish(&builder, &count);
+    if (elements == NULL && count > 0) {
+        parser->error = EDN_ERROR_OUT_OF_MEMORY;
+        parser->error_message = "Out of memory while building set";
+        return NULL;
+    }
 
     /* Check for duplicate elements (EDN spec requirement) */
     if (count > 1 && edn_has_duplicates(elements, count)) {
@@ -359,13 +376,17 @@ static void edn_map_builder_finish(edn_map_builder_t* builder, edn_value_t*** ou
             edn_arena_alloc(builder->arena, builder->count * sizeof(edn_value_t*));
         edn_value_t** permanent_values =
             edn_arena_alloc(builder->arena, builder->count * sizeof(edn_value_t*));
-        if (permanent_keys != NULL && permanent_values != NULL) {
-            memcpy(permanent_keys, builder->inline_keys, builder->count * sizeof(edn_value_t*));
-            memcpy(permanent_values, builder->inline_values, builder->count * sizeof(edn_value_t*));
-            *out_keys = permanent_keys;
-            *out_values = permanent_values;
+        if (permanent_keys == NULL || permanent_values == NULL) {
+            /* The inline storage lives in the caller's stack frame: it must not escape */
+            *out_keys = NULL;
+            *out_values = NULL;
             return;
         }
+        memcpy(permanent_keys, builder->inline_keys, builder->count * sizeof(edn_value_t*));
+        memcpy(permanent_values, builder->inline_values, builder->count * sizeof(edn_value_t*));
+        *out_keys = permanent_keys;
+        *out_values = permanent_values;
+        return;
     }
 
     *out_keys = builder->keys;
@@ -524,6 +545,11 @@ static edn_value_t* edn_read_map_internal(edn_parser_t* parser, const char* valu
     edn_value_t** values;
     size_t count;
     edn_map_builder_finish(&builder, &keys, &values, &count);
+    if (keys == NULL && count > 0) {
+        parser->error = EDN_ERROR_OUT_OF_MEMORY;
+        parser->error_message = "Out of memory while building map";
+        return NULL;
+    }
 
     /* Check for duplicate keys (EDN spec requirement) */
     if (count > 1) {
